@@ -189,7 +189,7 @@ def run_tlc_raw(ctx, module, cfg=None, workers=8, timeout=1200, env=None, simula
         # stopped by the time budget: a simulation, or a model-checking run that is then reported as not exhaustive
         res.error = None
         res.partial = True
-        m = re.findall(r"Progress\(\d+\) at [^:]*:\d+:\d+: ([\d,]+) states generated[^,]*, ([\d,]+) distinct states found", r.stdout)
+        m = re.findall(r"Progress\(\d+\) at [^:]*:\d+:\d+: ([\d,]+) states generated(?: \([^)]*\))?, ([\d,]+) distinct states found", r.stdout)
         if m and not res.generated:
             res.generated, res.distinct = int(m[-1][0].replace(",", "")), int(m[-1][1].replace(",", ""))
         m = re.findall(r"Progress\((\d+)\)", r.stdout)
